@@ -21,6 +21,9 @@ type Case struct {
 	Defect string    `json:"defect,omitempty"`
 	Reps   int       `json:"reps"`
 	Feat   string    `json:"feat,omitempty"` // feature configuration of the compile: "" all enabled, "none", "some"
+	// SkipUnknown: compiled with the option that tolerates references into modules that are not loaded.  What is refused
+	// in this mode is not pinned down here; the compile has to end, the same way on every run.
+	SkipUnknown bool `json:"skipunknown,omitempty"`
 	// Mutations: kinds of the structural mutations that were applied to the (formerly valid) set
 	Mutations []string `json:"mutations,omitempty"`
 }
@@ -341,6 +344,7 @@ func extraMods(c Case) []*sg.Mod {
 func genCase(t *rapid.T) Case {
 	g := &sg.G{T: t, Cfg: sg.GenCfg{ConfigFalse: true}}
 	c := Case{Mods: g.GenSet(), Reps: 4, Feat: []string{"", "", "none", "some"}[g.Pick(4, "featcfg")]}
+	c.SkipUnknown = g.Chance(1, 5, "skipunknown")
 	if fw.Thorough() {
 		c.Reps = 8
 	}
@@ -438,7 +442,7 @@ func checkCase(c Case) fw.Outcome {
 			}
 			feats = fs
 		}
-		res := sgc.CompileTexts(names, texts, sgc.Opts{Order: order, Features: feats, Separate: r%3 == 2})
+		res := sgc.CompileTexts(names, texts, sgc.Opts{Order: order, Features: feats, Separate: r%3 == 2, SkipUnknown: c.SkipUnknown})
 		if res.Hang || res.Panic != "" {
 			out.Violation = fmt.Sprintf("compilation is not total (%s)\nmodules:\n%s", res.Describe(), out.Key)
 			return out
@@ -478,7 +482,7 @@ func checkCase(c Case) fw.Outcome {
 	// names cycles only) sits on a node that a disabled feature may remove before anything resolves it
 	// (the "odd-" kinds are ill-formed references the property does not list - uses of extensions - : whether they are
 	// refused depends on where they stand; the compile has to end, the same way every time)
-	mustReject := c.Defect != "" && !strings.HasPrefix(c.Defect, "odd-") && (c.Feat == "" || strings.Contains(c.Defect, "cycle") || strings.Contains(c.Defect, "self") || strings.HasPrefix(c.Defect, "illegal-"))
+	mustReject := c.Defect != "" && !c.SkipUnknown && !strings.HasPrefix(c.Defect, "odd-") && (c.Feat == "" || strings.Contains(c.Defect, "cycle") || strings.Contains(c.Defect, "self") || strings.HasPrefix(c.Defect, "illegal-"))
 	if mustReject && firstOK {
 		out.Violation = fmt.Sprintf("a module set with an injected %s compiles without error\nmodules:\n%s", c.Defect, out.Key)
 	}
